@@ -49,6 +49,9 @@ macro_rules! subject_impl {
             fn roundtrip_with_params(&self, d: &[u8], v: &[u32]) -> R<(Vec<u8>, usize, usize, Vec<u32>)> {
                 $krate::verif_hooks::roundtrip_with_params(d, v).map_err(Self::e)
             }
+            fn corrections_with_params(&self, d: &[u8], v: &[u32]) -> R<(Vec<u8>, Vec<u8>, usize)> {
+                $krate::verif_hooks::corrections_with_params(d, v).map_err(Self::e)
+            }
             fn cabac_roundtrip(&self, ops: &[Op]) -> (usize, Vec<Op>) {
                 use $krate::verif_hooks::CabacOp;
                 let o: Vec<CabacOp> = ops
